@@ -694,6 +694,9 @@ theorem source_exits_release :
       beforeFrom "Syncer.runPeer" "event s.h.start" "defer call done" "call s.handleRPC") = true) ∧
     ((before "Syncer.runPeer" "call s.acquireInflight" "recv inflight" &&
       before "Syncer.runPeer" "recv inflight" "continue") = true) ∧
+    ((countBetween "Syncer.runPeer" "call s.acquireInflight" "event s.h.start" "continue" == 1 &&
+      countBetween "Syncer.runPeer" "call s.acquireInflight" "event s.h.start" "return" == 0 &&
+      countBetween "Syncer.runPeer" "call s.acquireInflight" "event s.h.start" "recv inflight" == 1) = true) ∧
     ((beforeFrom "Syncer.runPeer" "event s.slot.want" "send inflight" "recv s.tg.Done()" &&
       beforeFrom "Syncer.runPeer" "event s.slot.want" "recv s.tg.Done()" "call s.acquireInflight" &&
       !has "Syncer.runPeer" "default") = true) ∧
@@ -707,7 +710,7 @@ theorem source_exits_release :
     ((before "Syncer.withPeers" "go{" "call s.tg.Add" &&
       beforeFrom "Syncer.withPeers" "go{" "call s.tg.Add" "call fn" &&
       beforeFrom "Syncer.withPeers" "go{" "defer call done" "call fn") = true) :=
-  ⟨handler_defers_cover_every_exit, runPeer_reject_returns_slot, runPeer_take_blocks, runPeer_closes_peer,
+  ⟨handler_defers_cover_every_exit, runPeer_reject_returns_slot, runPeer_only_reject_exit_before_handler, runPeer_take_blocks, runPeer_closes_peer,
    closes_stop_group, serve_joins_group, withPeers_registers_each_goroutine⟩
 
 end Verif.C18
